@@ -29,7 +29,11 @@ import (
 //
 // Every history up to the explored length over
 //
-//	W  write (insert with automatic id + counter increment, one transaction)
+//	W  write (insert with automatic id + counter increment, one transaction) followed
+//	   by the insert of a child row without parent, accepted or refused according to
+//	   the foreign-key setting the database runs with (configured off; on in a second
+//	   run of the directed histories): whatever the leader answers, every node must
+//	   show that outcome, also after a restart and on a node that joins later
 //	A  load a WAL-mode SQLite file (several pages)
 //	D  load a DELETE-mode SQLite file
 //	T  load SQL text the way POST /db/load does for data that is not a SQLite file:
@@ -53,7 +57,13 @@ import (
 // command, the logical dump (schema and all rows of all tables, read locally)
 // must equal the model; an invalid load must return an error and change nothing.
 
-const c22Schema = "CREATE TABLE t(id INTEGER PRIMARY KEY, v TEXT);CREATE TABLE c(n INTEGER)"
+// p/k are a parent/child pair: whether a child row without parent is accepted depends
+// on the foreign-key setting the database is RUN with, which every incarnation of a
+// node (live after a swap, rebuilt at start-up, restored from a snapshot) must take
+// from the node's configuration.
+const c22Schema = "CREATE TABLE t(id INTEGER PRIMARY KEY, v TEXT);CREATE TABLE c(n INTEGER);CREATE TABLE p(id INTEGER PRIMARY KEY);CREATE TABLE k(id INTEGER PRIMARY KEY, p INTEGER REFERENCES p(id))"
+
+const c22Orphan = 7777 // a parent id that never exists
 
 var c22OpName = map[byte]string{'W': "write", 'A': "load-wal-file", 'D': "load-delete-file", 'T': "load-sql-text", 'I': "invalid-loads",
 	'B': "boot", 'S': "snapshot", 'R': "restart", 'J': "join"}
@@ -173,6 +183,8 @@ type c22Model struct {
 	ids []int
 	vs  []string
 	n   int
+	ps  []int    // rows of p
+	ks  [][2]int // rows of k: id, p
 }
 
 func (m *c22Model) add(v string) {
@@ -186,7 +198,15 @@ func (m *c22Model) add(v string) {
 
 func (m *c22Model) tables() string {
 	var b strings.Builder
-	fmt.Fprintf(&b, "[c]\n%d\n[t]\n", m.n)
+	fmt.Fprintf(&b, "[c]\n%d\n[k]\n", m.n)
+	for _, k := range m.ks {
+		fmt.Fprintf(&b, "%d|%d\n", k[0], k[1])
+	}
+	b.WriteString("[p]\n")
+	for _, p := range m.ps {
+		fmt.Fprintf(&b, "%d\n", p)
+	}
+	b.WriteString("[t]\n")
 	for i := range m.ids {
 		fmt.Fprintf(&b, "%d|%s\n", m.ids[i], m.vs[i])
 	}
@@ -194,7 +214,7 @@ func (m *c22Model) tables() string {
 }
 
 func c22Content(tag string, rows, pad, counter int) *c22Model {
-	m := &c22Model{n: counter}
+	m := &c22Model{n: counter, ps: []int{1}, ks: [][2]int{{1, 1}}} // one proper parent/child pair
 	for i := 1; i <= rows; i++ {
 		m.ids = append(m.ids, i)
 		m.vs = append(m.vs, fmt.Sprintf("%s%d%s", tag, i, strings.Repeat("x", pad)))
@@ -203,7 +223,8 @@ func c22Content(tag string, rows, pad, counter int) *c22Model {
 }
 
 func (m *c22Model) clone() *c22Model {
-	return &c22Model{ids: append([]int(nil), m.ids...), vs: append([]string(nil), m.vs...), n: m.n}
+	return &c22Model{ids: append([]int(nil), m.ids...), vs: append([]string(nil), m.vs...), n: m.n,
+		ps: append([]int(nil), m.ps...), ks: append([][2]int(nil), m.ks...)}
 }
 
 // c22Inputs are the generated load/boot inputs.
@@ -225,6 +246,12 @@ func c22MakeFile(dir, name string, m *c22Model, wal bool) []byte {
 		qs = append(qs, fmt.Sprintf("INSERT INTO t(id,v) VALUES(%d,'%s')", m.ids[i], m.vs[i]))
 	}
 	qs = append(qs, fmt.Sprintf("INSERT INTO c(n) VALUES(%d)", m.n))
+	for _, p := range m.ps {
+		qs = append(qs, fmt.Sprintf("INSERT INTO p(id) VALUES(%d)", p))
+	}
+	for _, k := range m.ks {
+		qs = append(qs, fmt.Sprintf("INSERT INTO k(id,p) VALUES(%d,%d)", k[0], k[1]))
+	}
 	for _, q := range qs {
 		if r, err := d.ExecuteStringStmt(q); err != nil || r[0].GetError() != "" {
 			panic(fmt.Sprintf("harness: %s: %v %v", q, err, r))
@@ -278,7 +305,7 @@ func c22MakeInputs(dir string) *c22Inputs {
 	if !strings.Contains(txt, begin) {
 		panic("harness: unexpected dump format: " + txt)
 	}
-	in.sqlText = strings.Replace(txt, begin, begin+"DROP TABLE IF EXISTS t;\nDROP TABLE IF EXISTS c;\n", 1)
+	in.sqlText = strings.Replace(txt, begin, begin+"DROP TABLE IF EXISTS k;\nDROP TABLE IF EXISTS p;\nDROP TABLE IF EXISTS t;\nDROP TABLE IF EXISTS c;\n", 1)
 	// random bytes (fixed), never starting with the SQLite magic
 	in.random = make([]byte, 2048)
 	x := uint64(0x9E3779B97F4A7C15)
@@ -298,6 +325,7 @@ func c22MakeInputs(dir string) *c22Inputs {
 
 type c22Node struct {
 	role string // "leader" | "joined-node"
+	fk   bool   // the node's configured foreign-key setting
 	id   string
 	dir  string
 	addr string
@@ -312,7 +340,9 @@ func (n *c22Node) open() error {
 	}
 	n.ly = n.port.layer()
 	n.addr = n.ly.Addr().String()
-	s := New(&Config{DBConf: NewDBConfig(), Dir: n.dir, ID: n.id}, n.ly)
+	cfg := NewDBConfig()
+	cfg.FKConstraints = n.fk
+	s := New(&Config{DBConf: cfg, Dir: n.dir, ID: n.id}, n.ly)
 	s.NoSnapshotOnClose = true
 	if n.role == "leader" {
 		// the only voter: short timeouts only shorten its self-election
@@ -389,7 +419,7 @@ func c22Dump(s *Store) (string, error) {
 	return b.String(), nil
 }
 
-const c22SchemaDump = "table|c|c|CREATE TABLE c(n INTEGER)\ntable|t|t|CREATE TABLE t(id INTEGER PRIMARY KEY, v TEXT)\n"
+const c22SchemaDump = "table|c|c|CREATE TABLE c(n INTEGER)\ntable|k|k|CREATE TABLE k(id INTEGER PRIMARY KEY, p INTEGER REFERENCES p(id))\ntable|p|p|CREATE TABLE p(id INTEGER PRIMARY KEY)\ntable|t|t|CREATE TABLE t(id INTEGER PRIMARY KEY, v TEXT)\n"
 
 // c22Leaves lists the histories of exactly the given length: J at most once, B only before J.
 func c22Leaves(depth int) []string {
@@ -422,6 +452,10 @@ var c22Directed = []string{
 	// database file's modification time, so only the persistent full-snapshot-needed
 	// mark can make the snapshot after the swap a full one
 	"SRAWSJ", "SRDWSJ", "SRBWSJ", "SRTWSJ", "SRASJ", "SRBSJ", "SRAWSRJ", "SJRAWSR",
+	// file load, snapshot, write (with its child row without parent), then a restart that
+	// replays only the log after the snapshot, or a join fed snapshot + log: the database
+	// rebuilt there must treat the child row as the live one did
+	"ASWR", "DSWR", "ASWJ", "DSWJ", "DSWRJ", "JASWR", "JDSWR", "BSWR",
 }
 
 type c22Case struct {
@@ -429,13 +463,15 @@ type c22Case struct {
 	// BootFirst: in the closing sequence the truncated database is given to boot
 	// before it is given to Store.Load (single-node histories only).
 	BootFirst bool `json:"boot_first,omitempty"`
+	// FK: the nodes are configured with foreign-key enforcement on (default: off).
+	FK bool `json:"fk,omitempty"`
 }
 
 func TestVerif_C22(t *testing.T) {
 	r := kit.Start(t, "C22", "hist")
 	defer r.Finish()
 	depth := r.Pick(3, 4)
-	r.Rule(fmt.Sprintf("every history of length <=%d"+map[bool]string{true: "", false: " (quick tier: of the longest ones only those that begin with a load, boot, snapshot or join, contain a load, boot or invalid load and no SQL-text load - the real handler is part http; all histories one step shorter are covered)"}[r.Thorough()]+" over {write, load WAL-mode file, load DELETE-mode file, load SQL text (as /db/load does), invalid loads (random bytes, garbage text, empty data; through the /db/load dispatch, Store.Load and boot), boot (single node), snapshot with log truncation on every node, restart every node, join a second real Store (once)} on a fresh real Store, plus %d directed histories of length 5-7, each followed by one more write and a closing sequence (a database truncated in its second page given to Store.Load and, on a single node, to boot - in the other order in 4 extra cases - then one more write); after every step the joined node is awaited (applied index >= leader's last command, limit %v) and the logical dump of every node is compared with the reference model; invalid loads must be refused and change nothing. Histories are run as the leaves of the tree (every shorter history is a prefix of a leaf and is checked there). distinct = (history, per-step observation)", depth, len(c22Directed), c22Converge))
+	r.Rule(fmt.Sprintf("every history of length <=%d"+map[bool]string{true: "", false: " (quick tier: of the longest ones only those that begin with a load, boot, snapshot or join, contain a load, boot or invalid load and no SQL-text load - the real handler is part http; all histories one step shorter are covered)"}[r.Thorough()]+" over {write, load WAL-mode file, load DELETE-mode file, load SQL text (as /db/load does), invalid loads (random bytes, garbage text, empty data; through the /db/load dispatch, Store.Load and boot), boot (single node), snapshot with log truncation on every node, restart every node, join a second real Store (once)} on a fresh real Store, plus %d directed histories of length 4-7 (each also with the nodes configured with foreign keys on), each followed by one more write and a closing sequence (a database truncated in its second page given to Store.Load and, on a single node, to boot - in the other order in 4 extra cases - then one more write); after every step the joined node is awaited (applied index >= leader's last command, limit %v) and the logical dump of every node is compared with the reference model; invalid loads must be refused and change nothing. Histories are run as the leaves of the tree (every shorter history is a prefix of a leaf and is checked there). distinct = (history, per-step observation)", depth, len(c22Directed), c22Converge))
 	r.Assume("the joining node is a read-only (non-voting) node, so the first node stays a one-voter leader whatever the machine load; replication to a non-voter uses the same log/snapshot-install path as to a voter")
 	r.Assume("operations are sequential; loads racing with writes or with snapshots are not explored; chunked loads are C28")
 	r.Note("SQL text is the real dump of a database with DROP TABLE IF EXISTS for its tables put first, so that the text alone determines the resulting database")
@@ -478,6 +514,8 @@ func TestVerif_C22(t *testing.T) {
 		}
 		for _, h := range c22Directed {
 			cases = append(cases, c22Case{History: h})
+			// and with the nodes configured with foreign-key enforcement on
+			cases = append(cases, c22Case{History: h, FK: true})
 		}
 		for _, h := range []string{"", "B", "AS", "WSR"} {
 			cases = append(cases, c22Case{History: h, BootFirst: true})
@@ -532,7 +570,7 @@ func TestVerif_C22(t *testing.T) {
 			r.Eval(1)
 			r.Transition(steps)
 			for k, o := range obs {
-				r.Distinct(fmt.Sprintf("%s#%d=>%s", c.History, k, o))
+				r.Distinct(fmt.Sprintf("%s/%v/%v#%d=>%s", c.History, c.BootFirst, c.FK, k, o))
 			}
 			if i%211 == 5 {
 				r.Sample(map[string]any{"history": c.History + "+W", "steps": obs})
@@ -567,7 +605,11 @@ func (c *c22Exec) must(what string, err error) {
 }
 
 func (c *c22Exec) where() string {
-	return fmt.Sprintf("history %s, step %d", c22Spell(c.h, c.pos), c.pos+1)
+	fk := ""
+	if c.cs.FK {
+		fk = "nodes configured with foreign keys on, "
+	}
+	return fmt.Sprintf("%shistory %s, step %d", fk, c22Spell(c.h, c.pos), c.pos+1)
 }
 
 func (c *c22Exec) nodes() []*c22Node {
@@ -682,15 +724,19 @@ func (c *c22Exec) wellFormed(class string, err error) bool {
 
 func (c *c22Exec) write(tag string) {
 	ctx := context.Background()
-	res, _, err := c.a.s.Execute(ctx, executeRequestFromStrings([]string{fmt.Sprintf("INSERT INTO t(v) VALUES('%s')", tag), "UPDATE c SET n=n+1"}, false, true))
-	if err == nil {
+	run := func(tx bool, qs ...string) error {
+		res, _, err := c.a.s.Execute(ctx, executeRequestFromStrings(qs, false, tx))
+		if err != nil {
+			return err
+		}
 		for _, x := range res {
 			if x.GetError() != "" {
-				err = errors.New(x.GetError())
+				return errors.New(x.GetError())
 			}
 		}
+		return nil
 	}
-	if err != nil {
+	if err := run(true, fmt.Sprintf("INSERT INTO t(v) VALUES('%s')", tag), "UPDATE c SET n=n+1"); err != nil {
 		// the database the property promises would accept this write
 		c.obs = append(c.obs, "write-fails")
 		c.r.Violation("C22:write-fails:database-from-"+c.shape, fmt.Sprintf("%s: a plain write fails: %v", c.where(), err), c.cs)
@@ -699,6 +745,23 @@ func (c *c22Exec) write(tag string) {
 	}
 	c.model.add(tag)
 	c.model.n++
+	// A second request inserts a child row whose parent does not exist. Whether it is
+	// accepted depends on the foreign-key setting the database is run with (configured
+	// off by default, on in a second run of the directed histories). The property does
+	// not say which answer is right, so the leader's answer is taken as given - but it
+	// is an acknowledged outcome like any other: every node must show it, now and after
+	// whatever its database goes through next (snapshot, restart, snapshot install).
+	err := run(false, fmt.Sprintf("INSERT INTO k(p) VALUES(%d)", c22Orphan))
+	if err == nil {
+		id := 1
+		if n := len(c.model.ks); n > 0 {
+			id = c.model.ks[n-1][0] + 1
+		}
+		c.model.ks = append(c.model.ks, [2]int{id, c22Orphan})
+		c.obs = append(c.obs, "child-without-parent:accepted")
+	} else {
+		c.obs = append(c.obs, "child-without-parent:refused")
+	}
 }
 
 func (c *c22Exec) restart(n *c22Node) bool {
@@ -809,7 +872,7 @@ func c22Run(t *testing.T, r *kit.Run, cs c22Case, in *c22Inputs, base string) ([
 	defer os.RemoveAll(base)
 	c := &c22Exec{t: t, r: r, h: cs.History, cs: cs, in: in, model: &c22Model{}, shape: "create-table"}
 	c.pos = -1
-	c.a = &c22Node{role: "leader", id: "n1", dir: filepath.Join(base, "n1")}
+	c.a = &c22Node{role: "leader", id: "n1", dir: filepath.Join(base, "n1"), fk: cs.FK}
 	c.must("open", c.a.open())
 	defer func() {
 		for _, n := range c.nodes() {
@@ -902,7 +965,7 @@ func c22Run(t *testing.T, r *kit.Run, cs c22Case, in *c22Inputs, base string) ([
 				continue
 			}
 		case 'J':
-			c.b = &c22Node{role: "joined-node", id: "n2", dir: filepath.Join(base, "n2")}
+			c.b = &c22Node{role: "joined-node", id: "n2", dir: filepath.Join(base, "n2"), fk: cs.FK}
 			c.must("open joining node", c.b.open())
 			c.must("join", c.a.s.Join(joinRequest(c.b.id, c.b.addr, false)))
 		}
